@@ -62,7 +62,8 @@ pub fn one_call(pat: Pat, psk_mask: u16, initiator: bool, k: usize, psk_missing:
             let cap = if choice == 0 { 64 } else { 0 };
             let r = hs.write_message(&payload, &mut buf[..cap]);
             match HsOps::<P>::precheck_write(&rm) {
-                Some(e) => assert!(r == Err(err_of(e)), "C11: wrong result for an out-of-phase / keyless write"),
+                // after the last message both "already finished" and "not your turn" describe the call
+                Some(e) => assert!(r == Err(err_of(e)) || (finished && r == Err(Error::State(StateProblem::HandshakeAlreadyFinished))), "C11: wrong result for an out-of-phase / keyless write"),
                 None => {
                     if choice == 0 {
                         assert!(r == Ok(fixed + 2), "C11: a legitimate write was refused");
@@ -76,7 +77,7 @@ pub fn one_call(pat: Pat, psk_mask: u16, initiator: bool, k: usize, psk_missing:
         2 | 3 => {
             let r = hs.read_message(&buf[..fixed + 2], &mut out);
             match HsOps::<P>::precheck_read(&rm, fixed + 2).or(if HsOps::<P>::precheck_read(&rm, 0).is_none() { HsOps::<P>::precheck_psk(&rm) } else { None }) {
-                Some(e) => assert!(r == Err(err_of(e)), "C11: wrong result for an out-of-phase / keyless read"),
+                Some(e) => assert!(r == Err(err_of(e)) || (finished && r == Err(Error::State(StateProblem::HandshakeAlreadyFinished))), "C11: wrong result for an out-of-phase / keyless read"),
                 None => {
                     // a rejecting cipher only matters if this message has an encrypted field
                     let any_enc = enc || unsafe { O_DEC_CALLS[0] } > 0;
